@@ -60,7 +60,8 @@ def showAmtDe (e : AmtEnc) (shape : String) (signed : Bool) (j : Option Json) : 
       | none => "err" | some none => "ok none" | some (some v) => s!"ok {v}")
   | "vec" => some (match j.bind (hasAmountsFromJson signed e) with | none => "err" | some vs => showVals vs)
   | _ => none
-/-- the document with the borrowed-string requirement of `as_xmr::vec` lifted: every element read like a single amount -/
+/-- the sequence document read element by element like single amounts (independently of `amtVecFromJson`; before the fix of
+`as_xmr::vec`, which asked for borrowed strings, the library disagreed with this side) -/
 def vecAsPlain (signed : Bool) (e : AmtEnc) (j : Json) : Option (List Int) :=
   match fieldsOf ["amounts"] 0 j with
   | some [none] => some []
